@@ -108,7 +108,10 @@ IDENTIFIER = fr'''
 # `nth` content
 NTH = fr'(?:[-+])?(?:[0-9]+n?|n)(?:(?<=n){WSC}*(?:[-+]){WSC}*(?:[0-9]+))?'
 # Value: quoted string or identifier
-VALUE = fr'''(?:"(?:\\(?:[^\r\n\f]|{NEWLINE})|[^\\"\r\n\f])*?"|'(?:\\(?:[^\r\n\f]|{NEWLINE})|[^\\'\r\n\f])*?'|{IDENTIFIER})'''
+# Escapes allowed in a quoted value: hex escape (optionally terminated by a newline; a space or tab terminator
+# is matched as an ordinary character), escaped character, or line continuation
+STRING_ESCAPES = fr'\\(?:(?:[a-f0-9]{{6}}|[a-f0-9]{{1,5}}(?![a-f0-9])){NEWLINE}?|[^\r\n\fa-f0-9]|{NEWLINE})'
+VALUE = fr'''(?:"(?:{STRING_ESCAPES}|[^\\"\r\n\f])*?"|'(?:{STRING_ESCAPES}|[^\\'\r\n\f])*?'|{IDENTIFIER})'''
 # Attribute value comparison. `!=` is handled special as it is non-standard.
 ATTR = fr'(?:{WSC}*(?P<cmp>[!~^|*$]?=){WSC}*(?P<value>{VALUE})(?:{WSC}*(?P<case>[is]))?)?{WSC}*\]'
 
